@@ -127,6 +127,8 @@ def fold_macros():
     out += '#define FRAME_EXCEPT1(p, a) (' + ' && '.join('((a) == %d || (p)->squares[%d] == __CPROVER_old((p)->squares[%d]))' % (k, k, k) for k in range(64)) + ')\n'
     out += '#define FRAME_EXCEPT2(p, a, b) (' + ' && '.join('((a) == %d || (b) == %d || (p)->squares[%d] == __CPROVER_old((p)->squares[%d]))' % (k, k, k, k) for k in range(64)) + ')\n'
     out += '#define APPLIED_ALL(p, q0, m) (' + ' && '.join('(p)->squares[%d] == spec_apply_sq((q0), (m), %d)' % (k, k) for k in range(64)) + ')\n'
+    out += '#define BB_DELTA1(p, oldp, newp, sq) (' + ' && '.join('(p)->pieceTypeBB_[%d] == ((__CPROVER_old((p)->pieceTypeBB_[%d]) & ~((oldp) == %d ? 1ULL << (sq) : 0ULL)) | ((newp) == %d ? 1ULL << (sq) : 0ULL))' % (c, c, c, c) for c in range(13)) + ')\n'
+    out += '#define BB_DELTA_MOVE(p, pc, from, to) (' + ' && '.join('(p)->pieceTypeBB_[%d] == ((pc) == %d ? ((__CPROVER_old((p)->pieceTypeBB_[%d]) & ~(1ULL << (from))) | (1ULL << (to))) : __CPROVER_old((p)->pieceTypeBB_[%d]))' % (c, c, c, c) for c in range(13)) + ')\n'
     out += '#define FOLD_MAT(q) (' + ' + '.join(ID(s) for s in range(64)) + ')\n'
     for nm, lo, hi in (('WM', 1, 6), ('BM', 7, 12), ('WP', 6, 6), ('BP', 12, 12)):
         out += '#define FOLD_%s(q) (' % nm + ' + '.join(PV(s, lo, hi) for s in range(64)) + ')\n'
@@ -194,10 +196,11 @@ static _Bool wf_board_x(const struct Position* p, U64 dh) {
 #define WF_MTRL(p) ((p)->wMtrl_ == ghost_WM - kV && (p)->bMtrl_ == ghost_BM - kV && (p)->wMtrlPawns_ == ghost_WP && (p)->bMtrlPawns_ == ghost_BP)
 #define wf_board(pp) wf_board_x((pp), 0)
 #define wf_board_d(pp) wf_board_x((pp), ghost_dh)
-/* domain: at most 16 men per side, one king each, no pawns on the first/last rank */
+/* exactly one king each (bit trick, no popcount: SAT-friendly), no pawns on the first/last rank.
+   "At most 16 men per side" is not needed by any obligation any more (it guarded the MatId overflow before the fix). */
+#define ONE_BIT(x) ((x) != 0 && ((x) & ((x) - 1)) == 0)
 static _Bool men_ok(const struct Position* p) {
-    return spec_popcount(p->whiteBB_) <= 16 && spec_popcount(p->blackBB_) <= 16
-        && spec_popcount(p->pieceTypeBB_[Piece_WKING]) == 1 && spec_popcount(p->pieceTypeBB_[Piece_BKING]) == 1
+    return ONE_BIT(p->pieceTypeBB_[Piece_WKING]) && ONE_BIT(p->pieceTypeBB_[Piece_BKING])
         && ((p->pieceTypeBB_[Piece_WPAWN] | p->pieceTypeBB_[Piece_BPAWN]) & BitBoard_maskRow1Row8) == 0;
 }
 static U8 spec_castle_sq_mask(int s) {
@@ -317,6 +320,13 @@ static _Bool same_all(const struct Position* a, const struct Position* b) {
 #define NONBOARD_SAME(p) ((p)->whiteMove == __CPROVER_old((p)->whiteMove) && (p)->castleMask == __CPROVER_old((p)->castleMask) \
     && (p)->epSquare == __CPROVER_old((p)->epSquare) && (p)->halfMoveClock == __CPROVER_old((p)->halfMoveClock) \
     && (p)->fullMoveCounter == __CPROVER_old((p)->fullMoveCounter) && (p)->nnEval == __CPROVER_old((p)->nnEval))
+#define WB_DELTA1(p, oldp, newp, sq) ( \
+    (p)->whiteBB_ == ((__CPROVER_old((p)->whiteBB_) & ~(IS_WHITE(oldp) ? 1ULL << (sq) : 0ULL)) | (IS_WHITE(newp) ? 1ULL << (sq) : 0ULL)) \
+ && (p)->blackBB_ == ((__CPROVER_old((p)->blackBB_) & ~(IS_BLACK(oldp) ? 1ULL << (sq) : 0ULL)) | (IS_BLACK(newp) ? 1ULL << (sq) : 0ULL)))
+#define WB_DELTA_MOVE(p, pc, from, to) ( \
+    (p)->whiteBB_ == (IS_WHITE(pc) ? ((__CPROVER_old((p)->whiteBB_) & ~(1ULL << (from))) | (1ULL << (to))) : __CPROVER_old((p)->whiteBB_)) \
+ && (p)->blackBB_ == (IS_WHITE(pc) ? __CPROVER_old((p)->blackBB_) : ((__CPROVER_old((p)->blackBB_) & ~(1ULL << (from))) | (1ULL << (to)))))
+#define WF_SCALARS_D(p) (WF_HASH_X(p, ghost_dh) && WF_PHASH(p) && WF_MATID(p) && WF_MTRL(p))
 #define NN_OK(p) ((p)->nnEval == 0 || __CPROVER_is_fresh((p)->nnEval, sizeof(struct NNEvaluator)))
 /* ghost model fields after an update of one square, as the update lemma (group fold_lemmas) states it */
 #define GHOSTS_UPDATED(oldp, newp, sq) ( \
@@ -344,51 +354,58 @@ CONTRACTS.update({
     'NNEvaluator_popState': {'assigns': ['self->ghost_pop'], 'ensures': ['1']},
     'NNEvaluator_forceFullEval': {'assigns': ['self->ghost_calls'], 'ensures': ['1']},
 
-    # ---- the three mutators that write squares[] (ghost model fields updated by spliced ghost code) ----
+    # ---- the three mutators that write squares[]: delta contracts (no loops); the fold ghosts are updated by spliced ghost code ----
     'Position_setPiece': {
-        'requires': [_SELF, 'NN_OK(self)', _TABLES, _G, 'wf_board_d(self)', '0 <= sq && sq < 64 && 0 <= piece && piece <= 12'],
+        'requires': [_SELF, 'NN_OK(self)', _TABLES, 'WF_SCALARS_D(self)', '0 <= sq && sq < 64 && 0 <= piece && piece <= 12',
+                     '0 <= self->squares[sq] && self->squares[sq] <= 12'],
         'assigns': _FRAME_ALL,
-        'ensures': ['GHOSTS_UPDATED(__CPROVER_old(self->squares[sq]), piece, sq)'] + _WF_D_ENS + ['self->squares[sq] == piece',
-                    'FRAME_EXCEPT1(self, sq)', 'NONBOARD_SAME(self)'],
+        'ensures': ['GHOSTS_UPDATED(__CPROVER_old(self->squares[sq]), piece, sq)', 'WF_HASH_X(self, ghost_dh)', 'WF_PHASH(self)', 'WF_MATID(self)', 'WF_MTRL(self)',
+                    'self->squares[sq] == piece', 'FRAME_EXCEPT1(self, sq)',
+                    'BB_DELTA1(self, __CPROVER_old(self->squares[sq]), piece, sq)', 'WB_DELTA1(self, __CPROVER_old(self->squares[sq]), piece, sq)',
+                    'NONBOARD_SAME(self)'],
         'ghost_entry': 'int ghost_oldp = self->squares[sq];',
         'ghost_exit': 'GHOST_UPD(ghost_oldp, self->squares[sq], sq);',
     },
     'Position_clearPiece': {
-        'requires': [_SELF, 'NN_OK(self)', _TABLES, _G, 'wf_board_d(self)', '0 <= sq && sq < 64'],
+        'requires': [_SELF, 'NN_OK(self)', _TABLES, 'WF_SCALARS_D(self)', '0 <= sq && sq < 64', '0 <= self->squares[sq] && self->squares[sq] <= 12'],
         'assigns': _FRAME_ALL,
-        'ensures': ['GHOSTS_UPDATED(__CPROVER_old(self->squares[sq]), Piece_EMPTY, sq)'] + _WF_D_ENS + ['self->squares[sq] == Piece_EMPTY',
-                    'FRAME_EXCEPT1(self, sq)', 'NONBOARD_SAME(self)'],
+        'ensures': ['GHOSTS_UPDATED(__CPROVER_old(self->squares[sq]), Piece_EMPTY, sq)', 'WF_HASH_X(self, ghost_dh)', 'WF_PHASH(self)', 'WF_MATID(self)', 'WF_MTRL(self)',
+                    'self->squares[sq] == Piece_EMPTY', 'FRAME_EXCEPT1(self, sq)',
+                    'BB_DELTA1(self, __CPROVER_old(self->squares[sq]), Piece_EMPTY, sq)', 'WB_DELTA1(self, __CPROVER_old(self->squares[sq]), Piece_EMPTY, sq)',
+                    'NONBOARD_SAME(self)'],
         'ghost_entry': 'int ghost_oldp = self->squares[sq];',
         'ghost_exit': 'GHOST_UPD(ghost_oldp, self->squares[sq], sq);',
     },
     'Position_movePieceNotPawn': {
-        'requires': [_SELF, 'NN_OK(self)', _TABLES, _G, 'wf_board_d(self)', '0 <= from && from < 64 && 0 <= to && to < 64 && from != to',
-                     'self->squares[to] == Piece_EMPTY', 'self->squares[from] != Piece_EMPTY && self->squares[from] != Piece_WPAWN && self->squares[from] != Piece_BPAWN'],
+        'requires': [_SELF, 'NN_OK(self)', _TABLES, 'WF_SCALARS_D(self)', '0 <= from && from < 64 && 0 <= to && to < 64 && from != to',
+                     'self->squares[to] == Piece_EMPTY', '1 <= self->squares[from] && self->squares[from] <= 12 && self->squares[from] != Piece_WPAWN && self->squares[from] != Piece_BPAWN'],
         'assigns': _FRAME_ALL,
         'ensures': [
                     # two single-square updates: from := EMPTY, then to := piece
                     'ghost_H == (__CPROVER_old(ghost_H) ^ Position_psHashKeys_AT(self->squares[to], from) ^ Position_psHashKeys_AT(self->squares[to], to))',
                     'ghost_PH == __CPROVER_old(ghost_PH) && ghost_MAT == __CPROVER_old(ghost_MAT) && ghost_WM == __CPROVER_old(ghost_WM) && ghost_BM == __CPROVER_old(ghost_BM) && ghost_WP == __CPROVER_old(ghost_WP) && ghost_BP == __CPROVER_old(ghost_BP)',
-                    ] + _WF_D_ENS + ['self->squares[from] == Piece_EMPTY', 'self->squares[to] == __CPROVER_old(self->squares[from])',
-                    'FRAME_EXCEPT2(self, from, to)', 'NONBOARD_SAME(self)'],
+                    'WF_HASH_X(self, ghost_dh)', 'WF_PHASH(self)', 'WF_MATID(self)', 'WF_MTRL(self)',
+                    'self->squares[from] == Piece_EMPTY', 'self->squares[to] == __CPROVER_old(self->squares[from])', 'FRAME_EXCEPT2(self, from, to)',
+                    'BB_DELTA_MOVE(self, __CPROVER_old(self->squares[from]), from, to)', 'WB_DELTA_MOVE(self, __CPROVER_old(self->squares[from]), from, to)',
+                    'NONBOARD_SAME(self)'],
         'ghost_entry': 'int ghost_oldf = self->squares[from]; int ghost_oldt = self->squares[to];',
         'ghost_exit': 'GHOST_UPD(ghost_oldf, self->squares[from], from); GHOST_UPD(ghost_oldt, self->squares[to], to);',
     },
-    # ---- flag setters keep the hash consistent ----
+    # ---- flag setters keep the hash consistent (frame = assigns clause) ----
     'Position_setWhiteMove': {
-        'requires': [_SELF, _TABLES, 'wf_board_d(self)'],
+        'requires': [_SELF, 'FLAGS_OK(self)', 'WF_HASH_X(self, ghost_dh)'],
         'assigns': ['self->hashKey, self->whiteMove'],
-        'ensures': _WF_D_ENS + ['self->whiteMove == whiteMove'],
+        'ensures': ['WF_HASH_X(self, ghost_dh)', 'self->whiteMove == whiteMove'],
     },
     'Position_setCastleMask': {
-        'requires': [_SELF, _TABLES, 'wf_board_d(self)', '0 <= castleMask && castleMask <= 15'],
+        'requires': [_SELF, 'FLAGS_OK(self)', 'WF_HASH_X(self, ghost_dh)', '0 <= castleMask && castleMask <= 15'],
         'assigns': ['self->hashKey, self->castleMask'],
-        'ensures': _WF_D_ENS + ['self->castleMask == castleMask'],
+        'ensures': ['WF_HASH_X(self, ghost_dh)', 'self->castleMask == castleMask'],
     },
     'Position_setEpSquare': {
-        'requires': [_SELF, _TABLES, 'wf_board_d(self)', '-1 <= epSquare && epSquare <= 63'],
+        'requires': [_SELF, 'FLAGS_OK(self)', 'WF_HASH_X(self, ghost_dh)', '-1 <= epSquare && epSquare <= 63'],
         'assigns': ['self->hashKey, self->epSquare'],
-        'ensures': _WF_D_ENS + ['self->epSquare == epSquare'],
+        'ensures': ['WF_HASH_X(self, ghost_dh)', 'self->epSquare == epSquare'],
     },
     'Position_staticInitialize': {
         'assigns': ['__CPROVER_object_whole(Position_castleSqMask)'],
@@ -396,18 +413,22 @@ CONTRACTS.update({
     },
     'Position_makeMove': {
         'requires': [_SELF, 'NN_OK(self)', '__CPROVER_is_fresh(move, sizeof(*move))', '__CPROVER_is_fresh(ui, sizeof(*ui))', _TABLES, _G,
-                     'castle_tbl_ok()', 'epmask_ok()', 'wf(self)', 'mv_shape(self, move)', 'same_all(self, &ghost_pos0)', 'MTRL_RANGE_TIGHT'],
-        'assigns': _FRAME_ALL + ['*ui'],
+                     'castle_tbl_ok()', 'epmask_ok()', 'wf(self)', 'mv_shape(self, move)', 'same_all(self, &ghost_pos0)', 'MTRL_RANGE_TIGHT', 'ghost_dh == 0'],
+        'assigns': _FRAME_ALL + ['*ui', 'ghost_dh'],
+        # makeMove toggles the side-to-move key first and the side flag last: in between the hash differs from the
+        # from-scratch value by whiteHashKey; the ghost discrepancy follows that (ghost code only)
+        'ghost_entry': 'ghost_dh ^= Position_whiteHashKey;',
+        'ghost_exit': 'ghost_dh ^= Position_whiteHashKey;',
         'ensures': [
-            'wf_bb(self)', 'FLAGS_OK(self)', 'WF_HASH_X(self, 0)', 'WF_PHASH(self)', 'WF_MATID(self)', 'WF_MTRL(self)', 'men_ok(self)', 'wf_rights(self)', 'CLOCKS_OK(self)',
-            'APPLIED_ALL(self, &ghost_pos0, move)',
+            'wf_bb(self)', 'FLAGS_OK(self)', 'WF_HASH_X(self, 0)', 'WF_PHASH(self)', 'WF_MATID(self)', 'WF_MTRL(self)', 'men_ok(self)', 'wf_rights(self)',
+            'self->squares[ghost_g] == spec_apply_sq(&ghost_pos0, move, ghost_g)',
             'self->whiteMove == !ghost_pos0.whiteMove',
             'self->castleMask == spec_castle_after(ghost_pos0.castleMask, move->from_, move->to_)',
             'self->epSquare == spec_ep_after(&ghost_pos0, move)',
             'self->halfMoveClock == ((ghost_pos0.squares[move->to_] != Piece_EMPTY || ghost_pos0.squares[move->from_] == Piece_WPAWN || ghost_pos0.squares[move->from_] == Piece_BPAWN) ? 0 : ghost_pos0.halfMoveClock + 1)',
             'self->fullMoveCounter == ghost_pos0.fullMoveCounter + (ghost_pos0.whiteMove ? 0 : 1)',
             'ui->capturedPiece == ghost_pos0.squares[move->to_] && ui->castleMask == ghost_pos0.castleMask && ui->epSquare == ghost_pos0.epSquare && ui->halfMoveClock == ghost_pos0.halfMoveClock',
-            'self->nnEval == ghost_pos0.nnEval',
+            'self->nnEval == ghost_pos0.nnEval', 'ghost_dh == 0',
         ],
     },
     'MatId_addPiece': {
@@ -490,7 +511,6 @@ void h_setCastleMask(void) { struct Position* p; int c; havoc_tables(); Position
 void h_setEpSquare(void) { struct Position* p; int e; havoc_tables(); Position_setEpSquare(p, e); CANARY_POINT; }
 void h_staticInitialize(void) { havoc_tables(); Position_staticInitialize(); CANARY_POINT; }
 void h_makeMove(void) { struct Position* p; struct Move* m; struct UndoInfo* u; havoc_tables();
-    ghost_dh = Position_whiteHashKey;   /* instance of the mutator contracts used inside makeMove */
     Position_makeMove(p, m, u); CANARY_POINT; }
 void h_addPiece(void) { struct MatId* m; int pt; havoc_tables(); MatId_addPiece(m, pt); CANARY_POINT; }
 void h_removePiece(void) { struct MatId* m; int pt; havoc_tables(); MatId_removePiece(m, pt); CANARY_POINT; }
@@ -498,8 +518,8 @@ void h_serialize(void) { struct Position* p; struct SerializeData* d; havoc_tabl
 void h_historyHash(void) { struct Position* p; havoc_tables(); Position_historyHash(p); CANARY_POINT; }
 void h_bookHash(void) { struct Position* p; havoc_tables(); Position_bookHash(p); CANARY_POINT; }
 
-/* make ; unmake restores a bit-identical position.  makeMove is used through its contract (proved in
-   group makeMove); unMakeMove is the real body with the low-level mutators used through their contracts. */
+/* make ; unmake restores a bit-identical position: the real bodies of makeMove and unMakeMove, with the
+   low-level mutators and flag setters used through their (delta) contracts. */
 void h_make_unmake(void) {
     struct Position pos; struct Move m; struct UndoInfo ui; struct NNEvaluator nn;
     havoc_tables(); ghost_dh = 0;
@@ -517,6 +537,27 @@ void h_make_unmake(void) {
     __CPROVER_assert(same_all(&pos, &ghost_pos0), "unMakeMove(makeMove(p)) is bit-identical to p");
     CANARY_POINT;
 }
+
+/* Update lemma for the fold ghosts (meta-invariant GI): for every board, every piece value v and the square KK
+   (compile-time constant; the group runs all 64 cases), GHOST_UPD keeps each ghost equal to its from-scratch fold.
+   Spec-only: no repository code involved except the table dimensions and MatId::materialId. */
+#ifdef KK
+void h_fold_lemma(void) {
+    int b[64]; int v = nondet_int();
+    havoc_tables();
+    for (int s = 0; s < 64; s++) { b[s] = nondet_int(); __CPROVER_assume(b[s] >= 0 && b[s] <= 12); }
+    __CPROVER_assume(v >= 0 && v <= 12 && PIECEVALUES_OK);
+    __CPROVER_assume(GI(b));
+    int oldp = b[KK];
+    b[KK] = v;
+    GHOST_UPD(oldp, v, KK);
+    __CPROVER_assert(ghost_H == FOLD_HASH(b), "GI preserved: hash fold");
+    __CPROVER_assert(ghost_PH == FOLD_PHASH(b), "GI preserved: pawn hash fold");
+    __CPROVER_assert(ghost_MAT == FOLD_MAT(b), "GI preserved: material id fold");
+    __CPROVER_assert(ghost_WM == FOLD_WM(b) && ghost_BM == FOLD_BM(b) && ghost_WP == FOLD_WP(b) && ghost_BP == FOLD_BP(b), "GI preserved: material sums");
+    CANARY_POINT;
+}
+#endif
 """
 
 UNWIND = {'squares_ok': 65, 'spec_bb': 65, 'spec_white': 65, 'spec_black': 65,
@@ -538,7 +579,8 @@ GROUPS = [
     Group('setEpSquare', 'h_setEpSquare', enforce='Position_setEpSquare', min_props=5),
     Group('staticInitialize', 'h_staticInitialize', enforce='Position_staticInitialize', min_props=5),
     Group('makeMove', 'h_makeMove', enforce='Position_makeMove', replace=_MUT + _NN, min_props=30, timeout=3000),
-    Group('make_unmake', 'h_make_unmake', replace=('Position_makeMove',) + _MUT + _NN, min_props=30, timeout=3000),
+    Group('make_unmake', 'h_make_unmake', replace=_MUT + _NN + ('BitBoard_firstSquare',), min_props=30, timeout=3000),
+    Group('fold_lemma', 'h_fold_lemma', cases=('KK', list(range(64))), min_props=4, timeout=900, unwind=65),
     Group('serialize', 'h_serialize', enforce='Position_serialize', min_props=5),
     Group('historyHash', 'h_historyHash', enforce='Position_historyHash', replace=('BitBoard_bitCount',), min_props=3),
     Group('bookHash', 'h_bookHash', enforce='Position_bookHash', min_props=3),
